@@ -1,5 +1,4 @@
-\* case generator: every well-formed tree with MinEmit..MaxN nodes over the given alphabet
-\* (model checking), or random growth walks (-simulate); one JSON record per tree
+\* case generator (model checking): every tree shape with exactly 7 nodes over Memory(fanout 2), Compute(fanout 3), Fork, Hierarchical
 CONSTANTS
   MaxN = 7
   MaxDepth = 4
@@ -7,8 +6,7 @@ CONSTANTS
   BranchKinds = {"Fork", "Hierarchical"}
   Fanouts = {2}
   ComputeFanouts = {3}
-  BranchTags = {1}
-  MinEmit = 5
+  MinEmit = 7
   AppendComputes = TRUE
   CountOwn = FALSE
 INIT Init
